@@ -36,10 +36,12 @@ Definition is_digit (c : ascii) : bool := (48 <=? code c) && (code c <=? 57).
 Definition is_e (c : ascii) : bool := Ascii.eqb c "e" || Ascii.eqb c "E".
 Definition is_pm (c : ascii) : bool := Ascii.eqb c "+" || Ascii.eqb c "-".
 
-(* the condition of the while loop *)
-Definition accept (st : nst) (c : ascii) : bool :=
+(* the condition of the while loop.  [strict = false] is the code as found; [strict = true] is the code
+   with notes/repo_patches/numreader_div_zero.diff applied ('/' only after a numerator digit, and a zero
+   denominator counts as "nothing read"); the check probes the library to select the variant. *)
+Definition accept (strict : bool) (st : nst) (c : ascii) : bool :=
   is_digit c || (a_dot st && Ascii.eqb c ".") || (a_exp st && is_e c) || (a_sgn st && is_pm c)
-  || (a_div st && Ascii.eqb c "/") || (a_exp_sgn st && is_pm c).
+  || (a_div st && (negb strict || have_dig st) && Ascii.eqb c "/") || (a_exp_sgn st && is_pm c).
 
 Definition cur (st : nst) : Z * positive := if cn st then q1 st else q0 st.
 Definition set_cur (st : nst) (v : Z * positive) : nst :=
@@ -82,13 +84,13 @@ Definition step (st : nst) (c : ascii) : nst + fault :=
 
 Inductive sres := Run (st : nst) | Flt (f : fault).
 
-Fixpoint scan (s : list ascii) (st : nst) (n : nat) : sres * nat :=
+Fixpoint scan (strict : bool) (s : list ascii) (st : nst) (n : nat) : sres * nat :=
   match s with
   | [] => (Run st, n)
   | c :: s' =>
-    if accept st c then
+    if accept strict st c then
       match step st c with
-      | inl st' => scan s' st' (S n)
+      | inl st' => scan strict s' st' (S n)
       | inr f => (Flt f, S n)
       end
     else (Run st, n)
@@ -98,25 +100,27 @@ Definition qval (v : Z * positive) : Q := Qmake (fst v) (snd v).
 
 (* the code after the loop.  With n_char = 0 the C function leaves [var] untouched and
    returns 0; the model answers (Val 0, 0) and callers look at the count first. *)
-Definition conclude (st : nst) (n : nat) : nres * nat :=
+Definition conclude (strict : bool) (st : nst) (n : nat) : nres * nat :=
   match n with
   | O => (Val 0%Q, O)
   | _ =>
     let v := finish (cur st) (l_exp st) (exp_sgn st) (sgn st) in
     let d0 := if cn st then q0 st else v in
     let d1 := if cn st then v else q1 st in
-    if fst d1 =? 0 then (NFault DivZero, n) else (Val (qval d0 / qval d1)%Q, n)
+    if fst d1 =? 0 then (if strict then (Val 0%Q, O) else (NFault DivZero, n)) else (Val (qval d0 / qval d1)%Q, n)
   end.
 
-Definition read_num (s : list ascii) : nres * nat :=
-  match scan s st_init O with
-  | (Run st, n) => conclude st n
+Definition read_num_gen (strict : bool) (s : list ascii) : nres * nat :=
+  match scan strict s st_init O with
+  | (Run st, n) => conclude strict st n
   | (Flt f, n) => (NFault f, n)
   end.
+Definition read_num : list ascii -> nres * nat := read_num_gen false.        (* the code as found *)
+Definition read_num_fixed : list ascii -> nres * nat := read_num_gen true.   (* with the patch *)
 
 (* ILLget_value, mpq branch (read_lp.c:706-722): value 1 when nothing was read *)
-Definition get_value (s : list ascii) : nres * nat :=
-  match read_num s with
+Definition get_value (strict : bool) (s : list ascii) : nres * nat :=
+  match read_num_gen strict s with
   | (Val q, O) => (Val 1%Q, O)
   | r => r
   end.
